@@ -81,7 +81,8 @@ static uint64_t work(int id) {
             libwifi_dump_deauth(&de, b3, l3); h = fnv(h, b3, l3);
             struct libwifi_frame f3; struct libwifi_parsed_deauth pd;
             if (libwifi_get_wifi_frame(&f3, b3, l3, 0) == 0) {
-                if (libwifi_parse_deauth(&pd, &f3) == 0) { h = fnv(h, &pd.fixed_parameters.reason_code, 2); free(pd.tags.parameters); }
+                if (libwifi_parse_deauth(&pd, &f3) == 0) { h = fnv(h, &pd.fixed_parameters.reason_code, 2); }
+                libwifi_free_parsed_deauth(&pd);
             }
             libwifi_free_wifi_frame(&f3); free(b3); libwifi_free_deauth(&de);
         }
